@@ -2036,15 +2036,24 @@ package xpath
 //@   theory stream for C13
 //@   uses one-document
 //@   loop * invariant[cursor@C13] cur(t) == old(cur(t)) && pos(cur(t)) == old(pos(cur(t)))
+//@ define inAt(q, j) = spos(ref(q), epoch(q), j)
 //@ func (*parentQuery).Select
-//@   props C15 C13
-//@   theory stream for C13
+//@   props C15 C13 C01
+//@   theory stream for C13 C01
 //@   uses one-document
+//@   ensures[parent-of-input@C01] result != nil ==> k(p.Input) > old(k(p.Input)) && !isroot(inAt(p.Input, k(p.Input) - 1)) && pos(result) == parent(inAt(p.Input, k(p.Input) - 1)) && predv(ref(p), pos(result)) && isFresh(result)
+//@   ensures[skipped-have-none@C01] forall(j, Int, old(k(p.Input)) <= j && j < ite(result != nil, k(p.Input) - 1, k(p.Input)) ==> isroot(inAt(p.Input, j)) || !predv(ref(p), parent(inAt(p.Input, j))))
+//@   ensures[drains-input@C01] result == nil ==> k(p.Input) == slen(ref(p.Input), epoch(p.Input))
+//@   loop 0 invariant[scan@C01] old(k(p.Input)) <= k(p.Input) && epoch(p.Input) == old(epoch(p.Input)) && forall(j, Int, old(k(p.Input)) <= j && j < k(p.Input) ==> isroot(inAt(p.Input, j)) || !predv(ref(p), parent(inAt(p.Input, j))))
 //@   loop * invariant[cursor@C13] cur(t) == old(cur(t)) && pos(cur(t)) == old(pos(cur(t)))
 //@ func (*selfQuery).Select
-//@   props C15 C13
-//@   theory stream for C13
+//@   props C15 C13 C01
+//@   theory stream for C13 C01
 //@   uses one-document
+//@   ensures[self-of-input@C01] result != nil ==> k(s.Input) > old(k(s.Input)) && pos(result) == inAt(s.Input, k(s.Input) - 1) && predv(ref(s), pos(result))
+//@   ensures[skipped-fail-test@C01] forall(j, Int, old(k(s.Input)) <= j && j < ite(result != nil, k(s.Input) - 1, k(s.Input)) ==> !predv(ref(s), inAt(s.Input, j)))
+//@   ensures[drains-input@C01] result == nil ==> k(s.Input) == slen(ref(s.Input), epoch(s.Input))
+//@   loop 0 invariant[scan@C01] old(k(s.Input)) <= k(s.Input) && epoch(s.Input) == old(epoch(s.Input)) && forall(j, Int, old(k(s.Input)) <= j && j < k(s.Input) ==> !predv(ref(s), inAt(s.Input, j)))
 //@   loop * invariant[cursor@C13] cur(t) == old(cur(t)) && pos(cur(t)) == old(pos(cur(t)))
 //@ func (*functionQuery).Select
 //@   props C15 C13
